@@ -5,6 +5,7 @@
 From Coq Require Import NArith Bool List Lia.
 From RS.Gen Require Import Prelude GenConsts.
 From RS.Model Require Import Field Tables Sched Kernels Spec.
+From RS.Proofs Require Import FieldFacts.
 Import ListNotations.
 Local Open Scope N_scope.
 
@@ -79,6 +80,28 @@ Theorem C15_cantor_basis :
                     forallb (fun i => s_poly j (2 ^ N.of_nat i) =? 0) (seq 0 j)) (seq 0 16) = true.
 Proof. vm_compute. reflexivity. Qed.
 Print Assumptions C15_cantor_basis.
+
+(* mul multiplies by g^log_m in GF(2^16) for ALL 2^32 (symbol, log_m) pairs: read through the
+   Cantor basis (phi), the table-based product is carry-less multiplication by x^log_m modulo
+   GF_POLYNOMIAL.  By algebra (linearity of phi and pmul, exp = powers of x, period 65535)
+   from single-variable sweeps, not by enumeration of pairs. *)
+Theorem C15_mul : forall x m, x < 65536 -> m <= 65535 ->
+  phi (mul x m) = pmul (phi x) (pexp (N.to_nat m)).
+Proof. exact mul_is_field_mul. Qed.
+Print Assumptions C15_mul.
+
+(* pmul is multiplication in F_2[x]/(GF_POLYNOMIAL): bilinear, multiplying by x is mulx
+   (shift and conditional xor of the polynomial), x^0 = 1 is neutral *)
+Theorem C15_pmul_field :
+  (forall a b b', b < 65536 -> b' < 65536 -> pmul a (N.lxor b b') = N.lxor (pmul a b) (pmul a b')) /\
+  (forall a a' b, pmul (N.lxor a a') b = N.lxor (pmul a b) (pmul a' b)) /\
+  (forall a b, b < 65536 -> pmul a (mulx b) = mulx (pmul a b)) /\
+  (forall x, x < 65536 -> pmul x 1 = x) /\
+  (forall a m, pexp (a + m) = pmul (pexp a) (pexp m)) /\ pexp (N.to_nat 65535) = 1.
+Proof.
+  split; [exact pmul_lxor_r|]. split; [exact pmul_lxor_l|]. split; [exact pmul_mulx|]. split; [exact pmul_1_r|]. split; [exact pexp_add|exact pexp_period].
+Qed.
+Print Assumptions C15_pmul_field.
 
 (* the nibble tables are by definition products with shifted nibbles *)
 Theorem C15_tables_mul16 : forall m k i, mul16 m k i = mul (N.shiftl i (4 * k)) m.
